@@ -103,6 +103,7 @@ def verify_function(repo, registry, qualname, only_variant=None):
                 val = interp.run_body(fnode, env)
             except PyRaise as e:
                 kind, exc = "raise", e
+            interp.exit_env = env
             # ---- contract on this outcome
             meta = dict(function=qualname, variant=vtag)
             pre = f"{short}" + (f"[{vtag}]" if vtag else "")
@@ -125,6 +126,40 @@ def verify_function(repo, registry, qualname, only_variant=None):
                     ctx.oblige(f"{pre}/raises[{cl.name}]/must-raise", z3.Not(t), kind="must-raise", **meta)
             spec_env.vars["result"] = val
             pc_before_post = list(ctx.pc)
+            if c.delegates is not None:
+                callee, mapping = c.delegates
+                calls = [x for x in interp.contract_calls if x[0] == callee]
+                ok = len(calls) == 1 and calls[0][2] is val
+                terms = []
+                if ok:
+                    _, cb, _ = calls[0]
+                    cm, cf, _cc = repo.find_function(callee)
+                    exp = {k: c.eval_spec(interp, ex, spec_env) for k, ex in mapping.items()}
+                    full = interp.bind_args(cf.args, [], exp, Env(cm), None, callee.split(".")[-1])
+                    for k in full:
+                        a, b = cb.get(k), full[k]
+                        if a is b:
+                            continue
+                        try:
+                            terms.append(interp.veq(a, b))
+                        except Unsupported:
+                            ok = False
+                ctx.oblige(f"{pre}/delegates[{callee.replace('pyrepseq.', '')}]",
+                           z3.And(*terms) if (ok and terms) else z3.BoolVal(bool(ok)), kind="post", assume_after=False, **meta)
+            for fname, ex in c.sets:
+                exp = c.eval_spec(interp, ex, spec_env)
+                got = bound["self"].attrs.get(fname)
+                if got is exp:
+                    t = z3.BoolVal(True)
+                elif got is None:
+                    t = z3.BoolVal(False)
+                elif isinstance(got, VList) and isinstance(exp, VList):
+                    t = z3.And(z3.BoolVal(got.kind == exp.kind), interp.seq_eq(got, exp))
+                elif isinstance(got, Value) and got.mutable:
+                    t = z3.BoolVal(False)
+                else:
+                    t = interp.veq(got, exp)
+                ctx.oblige(f"{pre}/sets[self.{fname}]", t, kind="post", assume_after=False, **meta)
             if c.returns_expr is not None and "assume_only" not in c.returns_expr.kw:
                 exp = c.eval_spec(interp, c.returns_expr.expr, spec_env)
                 ctx.oblige(f"{pre}/{c.returns_expr.name}", interp.veq(val, exp), kind="post", assume_after=False,
@@ -135,17 +170,19 @@ def verify_function(repo, registry, qualname, only_variant=None):
             for cl in c.canaries:
                 t = interp.as_bool_term(c.eval_spec(interp, cl.expr, spec_env))
                 # a canary is a wrong post-condition: recorded separately, expected NOT to be provable
-                ctx.obligs.append(Obligation(f"{pre}/canary[{cl.name}]", pc_before_post + using(cl), t,
+                ctx.obligs.append(Obligation(f"{pre}/canary[{cl.name}]", list(ctx.global_facts) + pc_before_post + using(cl), t,
                                              dict(kind="canary", inputs=dict(ctx.inputs), **meta)))
             rep.calls.update(q for q, _ in interp.calls_made)
             return ("return", None, None)
 
         results = explore(run)
         for ctx, res in results:
-            rep.paths += 1
-            rep.outcomes.append((vtag,) + tuple(res))
             rep.obligations.extend(ctx.obligs)
             rep.assumed |= ctx.assumed
+            if res is None:
+                continue
+            rep.paths += 1
+            rep.outcomes.append((vtag,) + tuple(res))
     return rep
 
 
